@@ -4,6 +4,9 @@
 
 package operations
 
+// the body of a transaction marker is always a *TransactionBody (NewTransactionOperation, ModelToOperation)
+//@ typeinv TransactionOperation.baseOperation/Body : *TransactionBody
+
 // decodable(op): the body bytes are JSON that decodes into the body struct of op's type.
 // Uninterpreted: value fidelity through encoding/json is outside the contracts (C14 excluded clause).
 //@ function decodable(op *model.Operation) bool
@@ -52,3 +55,7 @@ package operations
 //@   trusted json.Marshal of operation body structs does not fail
 //@   mode math
 //@   modifies G:lastMarshaled
+
+// SetID on any operation writes the ID field of its embedded baseOperation
+//@ extern func opIDFootprint
+//@   modifies SnapshotOperation.baseOperation/ID, ErrorOperation.baseOperation/ID, TransactionOperation.baseOperation/ID, IncreaseOperation.baseOperation/ID, PutOperation.baseOperation/ID, RemoveOperation.baseOperation/ID, InsertOperation.baseOperation/ID, DeleteOperation.baseOperation/ID, UpdateOperation.baseOperation/ID, DocPutInObjOperation.baseOperation/ID, DocRemoveInObjOperation.baseOperation/ID, DocInsertToArrayOperation.baseOperation/ID, DocDeleteInArrayOperation.baseOperation/ID, DocUpdateInArrayOperation.baseOperation/ID
